@@ -263,7 +263,8 @@ func r02_1(c *Ctx) {
 
 // isDigitExpr: '0' + byte(x % 10) (either operand order).
 func isDigitExpr(v ssa.Value) bool {
-	b, ok := v.(*ssa.BinOp)
+	// '0' + byte(x % 10), or the sum formed in the wider type and narrowed afterwards: byte('0' + x%10)
+	b, ok := stripConvAll(v).(*ssa.BinOp)
 	if !ok || b.Op != token.ADD {
 		return false
 	}
